@@ -506,6 +506,29 @@ def c06(ctx, res):
             behind[len(files)] = "last word x%04X" % last
             files.append(body)
 
+    # images every byte of which is printable ASCII or white space, with a line feed among them: what makes a file
+    # an object file is its extension and its length, not what its bytes look like. The words are AND (immediate),
+    # LD and LDR only, so the run falls through to the implicit HALT behind the image and ends normally
+    textlike = {}
+    for k in range(48 if not ctx.thorough() else 600):
+        nwords = rnd.choice([0, 0, 1, 2, 3, 6])
+        origin_hi = rnd.randrange(0x20, 0x7F)
+        lf_in_origin = nwords == 0 or rnd.random() < 0.6
+        body = bytes([origin_hi, 0x0A if lf_in_origin else rnd.randrange(0x20, 0x7F)])
+        for j in range(nwords):
+            kind = rnd.choice("ALR")
+            if kind == "A":
+                body += bytes([rnd.randrange(0x50, 0x60), rnd.choice(list(range(0x20, 0x40)) + list(range(0x60, 0x7F)))])
+            elif kind == "L":
+                # (LD with a line feed, a tab or a CR as its low byte when the origin has none)
+                body += bytes([rnd.randrange(0x20, 0x30), rnd.choice([0x0A, 0x09, 0x0D, 0x0A]) if (not lf_in_origin and j == 0) else rnd.randrange(0x20, 0x7F)])
+            else:
+                body += bytes([rnd.randrange(0x60, 0x70), rnd.randrange(0x20, 0x7F)])
+        if 0x0A not in body:
+            body = body[:1] + b"\x0a" + body[2:]
+        textlike[len(files)] = body.hex()
+        files.append(body)
+
     def via_fifo(ix):
         return ix % 5 == 3
 
@@ -595,6 +618,10 @@ def c06(ctx, res):
                 res.violate("C06/loader-rejected/" + cls, "an even-length image of %d HALT words at x%04X, which fits below 0x10000, does not run to its HALT (exit %s)" % (n, origin, r.rc), detail)
             elif n >= 1 and data[2:] == b"\xF0\x25" * n and origin == 0 and r.rc not in (0, 0xEE):
                 res.violate("C06/loader-rejected/" + cls, "an even-length image of %d HALT words at x0000, which fits below 0x10000, was turned away (exit %s)" % (n, r.rc), detail)
+            elif ix in textlike:
+                res.cls("loader:image_of_text_bytes")
+                if r.rc != 0:
+                    res.violate("C06/loader-rejected/image_of_text_bytes", "an even-length image whose bytes are all printable ASCII or white space (%s: AND/LD/LDR words, then the implicit HALT) does not run to its end (exit %s)" % (textlike[ix], r.rc), detail)
             elif ix in behind:
                 res.cls("loader:runs_into_implicit_halt")
                 if r.rc != 0:
